@@ -19,7 +19,7 @@ ASSUMPTIONS = [
     "readings); the suggestion is wrong only if it is rejected in both readings while another position is accepted",
     "allowed-child oracle: the name labels a transition on some path from the start state to an accepting state",
 ]
-REQUIRED = ["candidates_with_a_past", "stateful_queries", "index_cases", "restorable_cases", "foreign_refused", "allowed_true", "allowed_false", "sorted_cases"]
+REQUIRED = ["parents_with_more_than_60_children", "candidates_with_a_past", "stateful_queries", "index_cases", "restorable_cases", "foreign_refused", "allowed_true", "allowed_false", "sorted_cases"]
 EXHAUSTIVE = {"quick": False, "thorough": False}
 
 
@@ -138,8 +138,9 @@ def run_rule(ctx, rule_name):
     # allowed-child query
     near = []
     for nm in names[:6]:
-        near += [nm[:-1], nm + "x", nm.upper(), nm[:1]]
-    for a in names + ["verifForeignElement", "", "Title"] + [x for x in near if x not in names]:
+        near += [nm[:-1], nm + "x", nm.upper(), nm[:1], "{https://eml.ecoinformatics.org/eml-2.2.0}" + nm, "eml:" + nm, nm + " ", " " + nm]
+    # (an allowed name that is an instance of a str subclass is still that name)
+    for a in names + [emlkit.NameStr(x) for x in names[:4]] + ["verifForeignElement", "", "Title"] + [x for x in near if x not in names]:
         ctx.evaluated()
         try:
             says = r.is_allowed_child(a)
@@ -164,6 +165,23 @@ def run_rule(ctx, rule_name):
                     ctx.sample({"rule": rule_name, "children": list(seq), "candidate": cand})
             if j <= 2:
                 judge(ctx, rule_name, r, m, rank, seq, "verifForeignElement", element)
+    # long parents (a keyword set with a hundred keywords, an attribute list): a valid sequence with one name pumped, the candidate's
+    # place falling on every index around the powers of two
+    base = emlkit.shortest_valid_sequence(rule_name) or []
+    longs = 0
+    for i in range(len(base) + 1):
+        for a in names:
+            if longs >= (4 if ctx.tier == "quick" else 30):
+                break
+            for count in (61, 62, 63, 64, 65, 127, 128, 129, 255, 256, 257):
+                seq = tuple(base[:i]) + (a,) * count + tuple(base[i:])
+                if m.verdict(seq) != relang.ACCEPT:
+                    break
+                for cand in {a, names[0], names[-1]} | set(base[i:i + 1]):
+                    judge(ctx, rule_name, mrule.Rule(rule_name), m, rank, seq, cand, element)
+                    ctx.count("parents_with_more_than_60_children")
+            else:
+                longs += 1
     reps = 30 if ctx.tier == "quick" else 600
     for _ in range(reps if names else 0):
         full = random_valid(m, ctx.rng, ctx.rng.choice([2, 5, 9, 14]))
@@ -202,7 +220,7 @@ def run_rule(ctx, rule_name):
                                                                    f"edited before, {want!r} on a fresh parent with the same children",
                               {"rule": rule_name, "seq": list(cur), "candidate": cand, "stateful": True})
                 break
-            judge(ctx, rule_name, r, m, rank, tuple(cur), cand, element)
+            judge(ctx, rule_name, mrule.Rule(rule_name), m, rank, tuple(cur), cand, element)   # (not r: r is only ever asked about `parent` here)
             ctx.distinct((rule_name, tuple(cur), cand, "stateful"))
             emlkit.discard(fresh, probe)
             # edit: insert at the suggested place, reorder, rename, or remove one or two children
@@ -226,6 +244,36 @@ def run_rule(ctx, rule_name):
                         i = ctx.rng.randrange(len(cur))
                         parent.remove_child(parent.children[i])
                         del cur[i]
+            if ctx.rng.random() < 0.5 and cur:
+                # ... or one child out and another one in: the same number of children as at the previous query
+                i = ctx.rng.randrange(len(cur))
+                parent.remove_child(parent.children[i])
+                del cur[i]
+                nm = ctx.rng.choice(names)
+                at = ctx.rng.randint(0, len(cur))
+                parent.add_child(Node(nm), at)
+                cur.insert(at, nm)
+            # the very next call on this Rule object is about the same parent again (nothing else was asked in between)
+            cand2 = ctx.rng.choice(names)
+            try:
+                got2 = r.child_insert_index(parent, Node(cand2))
+            except Exception as e:
+                got2 = f"raised {type(e).__name__}"
+            fresh = Node(element)
+            for c in cur:
+                fresh.add_child(Node(c))
+            try:
+                want2 = mrule.Rule(rule_name).child_insert_index(fresh, Node(cand2))
+            except Exception as e:
+                want2 = f"raised {type(e).__name__}"
+            emlkit.discard(fresh)
+            ctx.evaluated()
+            ctx.count("stateful_queries")
+            if got2 != want2:
+                ctx.violation("answer-depends-on-earlier-queries", f"{rule_name}: children {cur} + {cand2!r}: {got2!r} right after an edit of a parent "
+                                                                   f"that was queried before, {want2!r} on a fresh parent with the same children",
+                              {"rule": rule_name, "seq": list(cur), "candidate": cand2, "stateful": True})
+                break
         emlkit.discard(parent)
     # the allowed-child query once more, after all the index queries (which must not have taught the rule any new names)
     for a in ["verifForeignElement", "Title", ""] + [x for x in near if x not in names][:6]:
